@@ -24,3 +24,6 @@ Fixpoint dotzq (v : list Z) (c : list Q) : Q :=
   | x :: v', y :: c' => (qz x * y + dotzq v' c')%Q
   | _, _ => 0%Q
   end.
+
+(* numpy's v.clip(lo, hi) = minimum(hi, maximum(v, lo)), elementwise *)
+Definition zclipv (lo hi : Z) (v : list Z) : list Z := map (fun x => Z.min hi (Z.max x lo)) v.
